@@ -251,6 +251,39 @@ func runC04(c *Ctx) {
 		}
 	}
 	c.Floor("O4.1", "`return true` exits of Waiter.Wait", nTrue, 2)
+	// the timer is the waiter's own: a time.Timer whose channel may still hold the tick of an earlier arming makes the
+	// receive return at once (Reset does not drain it); the waiter's own timer is always either fresh or consumed, one
+	// taken from a pool, a global or another object is not - so every store to a *time.Timer field of Waiter is the
+	// result of time.NewTimer / time.AfterFunc made by the waiter's own code, or nil
+	{
+		sp := P.SSAPkg("core/coreutil")
+		nT := 0
+		if nt, ok := sp.Pkg.Scope().Lookup("Waiter").Type().Underlying().(*types.Struct); ok {
+			for i := 0; i < nt.NumFields(); i++ {
+				fv := nt.Field(i)
+				pt, isPtr := fv.Type().(*types.Pointer)
+				if !isPtr {
+					continue
+				}
+				if pk, tn := NamedOf(pt.Elem()); pk != "time" || tn != "Timer" {
+					continue
+				}
+				for _, sv := range P.FieldStores(fv) {
+					nT++
+					okNew := IsNilConst(sv) || DerivesOnly(sv, false, func(v ssa.Value) bool {
+						cl, _ := CallOfValue(v)
+						return IsNilConst(v) || (cl != nil && MatchCC(&cl.Call, Spec{"time", "", "NewTimer"}))
+					})
+					pos := token.NoPos
+					if in, isIn := sv.(ssa.Instruction); isIn {
+						pos = in.Pos()
+					}
+					c.Check(okNew, "O4.1", "core/coreutil.Waiter."+fv.Name()+":timer-is-the-waiters-own", pos, "a value stored into Waiter."+fv.Name()+" must be time.NewTimer(...) made for this waiter (or nil): a timer from a pool / another owner may carry a stale tick, and Wait would return before the token's time")
+				}
+			}
+		}
+		c.Floor("O4.1", "stores to the Waiter's timer field", nT, 1)
+	}
 	// lastNow writers: only time.Now()
 	{
 		sp := P.SSAPkg("core/coreutil")
